@@ -164,7 +164,14 @@ setup_call_cleanup(S, G, C) :-
     (  C = _:CC,
        var(CC) ->
        instantiation_error(setup_call_cleanup/3)
-    ;  scc_helper(C, G, Bb)
+    ;  C = _:_ ->
+       scc_helper(C, G, Bb)
+    ;  % The goal expansion of the calling body was abandoned (it contains a
+       % non-callable literal such as call(1)), so S, G and C arrive without
+       % module qualification. call/1 resolves S and G in user; the cleaner is
+       % called from run_cleaners_*, where an unqualified goal would be looked
+       % up in iso_ext and never run.
+       scc_helper(user:C, G, Bb)
     ).
 
 :- meta_predicate(scc_helper(?,0,?)).
